@@ -579,6 +579,11 @@ def c16(tier):
                 sc = rl.Scenario("cfgerr-%s" % cc, {"f1.rs": [S(11)], "f2.rs": [S(21, ref=3)]}, lock=lock, config_class=cc,
                                  extra_files=extra)
                 rl.planned_runs(binary, sc, [[(mode, "")]], batch, v, sigbase={"config_class": cc})
+    # the cache switch must also hold when a run is stopped or an operation fails
+    for lock in (None, 500):
+        sc = rl.Scenario("cache-off-stop", {"f1.rs": [S(11)], "f2.rs": [S(21), S(22)]}, use_cache=False, lock=lock)
+        rl.sweep(binary, sc, "edit", ["TERM", "INT"], batch, v)
+        rl.sweep(binary, sc, "edit", ["EIO"], batch, v, only_ops=("tmp.create", "tmp.write", "tmp.rename"))
     batch.judge(v, {"C16"})
     v.cov["exhaustive"] = True
     v.cov["rule"] = ("all combinations of use_cache {omitted,true,false} x structured {omitted,false,true} x extensions {omitted,[rs]} x "
@@ -603,6 +608,7 @@ def c18(tier):
                 sc.name += "-lock%s" % lock
                 scens.append(sc)
     scens.append(rl.Scenario("all-referenced", {"f1.rs": [S(11, ref=1)], "f2.rs": [S(21, ref=2)]}))
+    scens.append(rl.Scenario("cache-off", {"f1.rs": [S(11)], "f2.rs": [S(21), S(22)]}, use_cache=False, lock=500))
     for miss in (1, 2, 3):          # whichever order the directory yields, the incomplete file is not always first
         scens.append(rl.Scenario("only-f%d-missing" % miss, {"f%d.rs" % i: [S(10 * i + 1, ref=(None if i == miss else i))] for i in (1, 2, 3)}, lock=9))
     if tier == "thorough":
